@@ -5,7 +5,7 @@
   uses the arena (every stored pointer is registered and points into used bytes); that the real
   compiler obeys it is what the correspondence harness samples.
 -/
-import YaraModel.Lemmas.ArenaSave
+import YaraModel.Lemmas.ArenaRoundTrip
 import YaraModel.Lemmas.ArenaExample
 namespace YaraModel.Arena
 open YaraModel.Gen.ArenaLayout
@@ -29,6 +29,31 @@ theorem save_address_free {a a' : Arena} (h : abs a = abs a') : save a = save a'
     have hl : (bodies (toRefs x)).length = x.bufs.length := by rw [toRefs_eq]; simp [bodies]
     simp only [hl, bodies_toRefs_lengths]
   rw [e, e, h]
+
+/-- **Round trip.** For every well-formed arena (buffers below 2 GiB), every loader configuration and every
+    allocator that hands out non-null, non-overlapping blocks, loading the saved image succeeds and
+    yields an arena with the same abstract content: same bytes, every registered pointer denoting the
+    same (buffer, offset), same relocation list — whatever the new addresses are. -/
+theorem load_save (cfg : LoaderCfg) {a : Arena} (h : WF a) (hs2 : ∀ b ∈ a.bufs, b.data.length ≤ 2 ^ 31)
+    (alloc : Nat → Nat) (hA : RangesOk (loadedBufs alloc 0 (bodies (toRefs a)))) (hnz : ∀ i, alloc i ≠ 0) :
+    ∃ a', load cfg alloc (save a) = .ok a' ∧ abs a' = abs a := by
+  have ⟨h1, h2⟩ := load_save_core cfg h hs2 alloc hA hnz
+  refine ⟨loadedArena alloc a, ?_, h2⟩
+  have := h1 a.relocs h.slots.1 (fun r hr => hr)
+  rw [save_split]
+  exact this
+
+/-- **save (load (save r)) = save r**: re-saving the loaded rules writes the same bytes. -/
+theorem resave_identical (cfg : LoaderCfg) {a : Arena} (h : WF a) (hs2 : ∀ b ∈ a.bufs, b.data.length ≤ 2 ^ 31)
+    (alloc : Nat → Nat) (hA : RangesOk (loadedBufs alloc 0 (bodies (toRefs a)))) (hnz : ∀ i, alloc i ≠ 0) :
+    ∃ a', load cfg alloc (save a) = .ok a' ∧ save a' = save a := by
+  obtain ⟨a', h1, h2⟩ := load_save cfg h hs2 alloc hA hnz
+  exact ⟨a', h1, save_address_free h2⟩
+
+/-- the hypotheses of the round trip are satisfiable: the example arena, loaded at 1 MiB-spaced addresses -/
+example : ∃ a', load loaderCfg exAlloc (save exArena) = .ok a' ∧ abs a' = abs exArena :=
+  load_save loaderCfg exArena_wf (by decide) exAlloc
+    ⟨by decide, by decide, by decide⟩ (by intro i; unfold exAlloc; omega)
 
 /-- the hypotheses are satisfiable (three buffers, two registered pointers, one of them non-null) -/
 example : afterSave exArena = exArena ∧ saveFull exArena = .ok (save exArena, exArena) :=
